@@ -2650,6 +2650,20 @@ def c11_sleep(ctx):
                     elif txt_.startswith('is_some('):
                         occupied.append(t_['otherwise'])
         parks = list(parks) + occupied
+        # ... or the poll function woke its own waker before answering (a batch limit: "queue another poll behind whatever is waiting and
+        # give up the turn"): the waker the input is polled with, woken by the coroutine itself
+        ctx_wakers = set()
+        for bb_, t_ in k.calls():
+            if (t_['func'].get('fn') or '').endswith('Context::from_waker') and t_['args'] and not k.blocks[bb_]['cleanup']:
+                uv = upvar_of(k.expr_of_operand(t_['args'][0]))
+                if uv:
+                    ctx_wakers.add(uv)
+        self_wakes = []
+        for bb_, t_ in k.calls():
+            if (t_['func'].get('fn') or '').endswith(('Waker::wake_by_ref', 'Waker::wake')) and t_['args'] and not k.blocks[bb_]['cleanup']:
+                if upvar_of(k.expr_of_operand(t_['args'][0])) in ctx_wakers:
+                    self_wakes.append(bb_)
+        parks = parks + self_wakes
         from .ordq import feasible_reach
         badb = [b for b in trues if not (edom(k, pending, b) or any(dominates(k, pb, b) or edom(k, pb, b) for pb in parks))
                 and feasible_reach(k, 0, {b}, set(parks) | {pending})]
@@ -2657,6 +2671,61 @@ def c11_sleep(ctx):
             out.append(bad(R, key, 'the poll function answers "still waiting" on a path where nobody holds its waker (the input was not Pending and no back-pressure registration): the pipe is never polled again and the remaining items are lost', loc=k.loc(badb[0]), fn=k.name))
         else:
             out.append(ok(R, key, 'every "still waiting" result lies on the Pending edge of the input poll%s' % (' or after parking the waker in the back-pressure slot' if parks else ''), fn=k.name))
+    return out
+
+
+def c11_slot(ctx):
+    """The input stream stays where the next poll finds it: a poll function that takes the stream out of a shared slot for the duration of
+    a poll (`slot.lock().take()`) puts it back on every path on which it answers "keep me" - a stream that is still out when the function
+    returns is destroyed with the function's frame, with every item it had not yet produced, and the next poll finds the slot empty."""
+    out = []
+    R = 'ORD-C11-slot'
+    for root in ('desync::pipe_in', 'desync::pipe'):
+        rf = ctx.F.fn(root)
+        ks = [k for k in _children(ctx, root) if k.is_coroutine]
+        key = root.split('::')[-1] + '|input-back-in-its-slot'
+        if len(ks) != 1 or rf is None or rf.arg_count < 2:
+            out.append(undecided(R, key, 'poll coroutine not found'))
+            continue
+        k = ks[0]
+        sty = clean_ty(rf.local_ty(2)) if 'Desync' in clean_ty(rf.local_ty(1)) else clean_ty(rf.local_ty(1))   # the type of the `stream` parameter
+        opt = 'core::option::Option<%s>' % sty
+        takes = []
+        for bb, t in k.calls():
+            if k.blocks[bb]['cleanup'] or not t['args'] or t['args'][0]['k'] == 'const':
+                continue
+            nm = t['func'].get('fn') or ''
+            aty = clean_ty(t['args'][0]['pl']['ty']).replace('&mut ', '').replace('&', '')
+            if aty == opt and (nm.endswith(('Option::take', 'mem::take')) or (nm.endswith('mem::replace') and 'None' in render(k.expr_of_operand(t['args'][1])))):
+                takes.append(bb)
+        if not takes:
+            out.append(ok(R, key, 'the input stream is polled where it lives: nothing takes it out of a slot', fn=k.name))
+            continue
+        stores = []
+        for bb, b in enumerate(k.blocks):
+            if b['cleanup']:
+                continue
+            for s_ in b['stmts']:
+                if s_['k'] == 'assign' and s_['pl']['p'] and clean_ty(s_['pl'].get('ty', '')) == opt:
+                    ev = k.expr_of_rvalue(s_['rv'])
+                    if ev[0] == 'agg' and ev[2].endswith('Option::Some'):
+                        stores.append(bb)
+            t = b['term']
+            if t and t['k'] == 'call' and t['args'] and (t['func'].get('fn') or '').endswith(('Option::replace', 'Option::insert', 'mem::replace')) and t['args'][0]['k'] != 'const' \
+                    and clean_ty(t['args'][0]['pl']['ty']).replace('&mut ', '') == opt and 'None' not in render(k.expr_of_operand(t['args'][1])):
+                stores.append(bb)
+        prb = pipe_result_blocks(ctx, k)
+        trues = sorted(prb[0]) if prb else []
+        if not trues:
+            out.append(undecided(R, key, 'the answers of the poll function were not recognised'))
+            continue
+        from .ordq import feasible_reach
+        lost = [b for b in trues for tk in takes if not k.must_pass(tk, {b}, set(stores)) and feasible_reach(k, tk, {b}, set(stores))]
+        if lost:
+            out.append(bad(R, key, 'the poll function takes the input stream out of its slot and can answer "keep me" without having put it back: the stream is destroyed with the '
+                           'function\'s frame, the next poll finds the slot empty and the items the stream had not yet produced are never processed', loc=k.loc(lost[0]), fn=k.name))
+        else:
+            out.append(ok(R, key, 'taken out in %d place(s), stored back on every path to a "keep me" answer (%d store(s))' % (len(takes), len(stores)), fn=k.name))
     return out
 
 
